@@ -103,4 +103,11 @@ def r2(ctx):
               "_differentiate_factors (no sympy): exactly one factor, derivative 1 → empty set")
 
 
-RULES = [("C20.R1", r1), ("C20.R2", r2)]
+
+def f1(ctx):
+    """generic same-name parameter forwarding over this property's modules (see shared.generic_forwarding)."""
+    from . import shared as _sh
+    _sh.generic_forwarding(ctx, "C20.F1", _sh.PROPERTY_MODULES["C20"])
+
+
+RULES = [("C20.R1", r1), ("C20.R2", r2), ("C20.F1", f1)]
